@@ -136,7 +136,6 @@ static int parse_device(AsmContext *asm_context)
 
 static int parse_set(AsmContext *asm_context)
 {
-  char token[TOKENLEN];
   char name[TOKENLEN];
   //char value[TOKENLEN];
   int num;
@@ -148,7 +147,7 @@ static int parse_set(AsmContext *asm_context)
 
   if (token_type == TOKEN_EOL || token_type == TOKEN_EOF)
   {
-    print_error_unexp(asm_context, token);
+    print_error_unexp(asm_context, name);
     return -1;
   }
 
@@ -220,7 +219,7 @@ static int parse_equ(AsmContext *asm_context)
 
   if (token_type == TOKEN_EOL || token_type == TOKEN_EOF)
   {
-    print_error_unexp(asm_context, token);
+    print_error_unexp(asm_context, name);
     return -1;
   }
 
@@ -235,7 +234,7 @@ static int parse_equ(AsmContext *asm_context)
     return -1;
   }
 
-  macros_append(asm_context, name, value, 0);
+  if (macros_append(asm_context, name, value, 0) != 0) { return -1; }
 
   asm_context->tokens.line++;
 
